@@ -43,7 +43,7 @@ def run_failing(scen: dict, sched: list[dict], storage, entry: str, fail: dict) 
             fd["fail"] = {"when": fail["n"], "cls": fail["cls"], "args": fail["args"]}
     build.reset_log()
     tmp = tempfile.mkdtemp(prefix="pfverif_c13_")
-    script = exec_ctl.Script(sched, timeout=240.0)
+    script = exec_ctl.Script(sched)
     ex = exec_ctl.ScriptedExecutor()
     out: dict = {}
 
